@@ -517,11 +517,14 @@ def main() -> int:
     cjobs = []
     for v in (versions if t != "quick" else [5, 8, 10]):
         for (name, rec, opts) in rgen.wideratio_compound("A", v, t != "quick"):
-            if t == "quick" and v == 10 and ":vars:" not in name and ":order:" not in name:
+            if t == "quick" and v == 10 and ":vars:" not in name and ":order:" not in name and ":literal:" not in name:
                 continue
             cj = {"id": "%s@v%d" % (name, v), "family": "compound", "rec": to_json(rec), "version": v, "mode": "A", "loop_k": 2, "call_depth": 2, "lens": (0, 1)}
             cj.update(opts)
             cjobs.append(cj)
+            if ":literal:" in name:
+                # the same program with the constants loaded from constant blocks
+                cjobs.append(dict(cj, id=cj["id"] + "/asm", assemble=True))
             if ":vars:" in name and v >= 6:
                 # the same program with the slot optimiser forced on, through an options object that has compiled another program before
                 cjobs.append(dict(cj, id=cj["id"] + "/reused-options", optimize={"scratch_slots": True, "_reused": True}))
